@@ -22,6 +22,11 @@ import Bng.Model.KeySpec
     * update: state.Store.UpdateLease / UpdateSession replace the record and do not touch any index;
       UpdateSubscriber deletes the old key's entry BY VALUE when the key changed and overwrites the new one;
     * Manager.AssignAddress (`setKey`) writes byIP[ip] = id and leaves the entry of a previous address behind;
+    * Manager.TerminateSession is TWO critical sections with the allocator's ReleaseIPv4 between them, outside the lock:
+      `tpark` is the first (the session is marked terminating and stays in every map; a further TerminateSession of it
+      answers "already terminating" = `busy`), `tresume` the second (= `delete` on the record as it is then); every
+      other operation may run in between.  A session without an address has nothing to release: its `tpark` runs
+      both sections;
     * delete: every type deletes the index entries BY VALUE of the record's current keys, whoever they point to
       (`condDelete = false`; `true` is the repaired behaviour, used by none of the three);
     * lookup by key: index, then primary map; an entry whose primary is gone is observed as `dangling`
@@ -78,6 +83,13 @@ inductive Op where
   | list
   /-- replace the whole table by the stored records, in list order (MemoryAllocationStore.UnmarshalJSON) -/
   | load (l : List (Nat × Rec))
+  /-- first phase of Manager.TerminateSession: the first critical section marks the session `terminating`; the call then
+      sits OUTSIDE the lock inside allocator.ReleaseIPv4 (parked there by the harness) — or, when the session has no
+      address, there is nothing to release and the call runs straight through its second critical section -/
+  | tpark (id : Nat)
+  /-- second phase of a parked TerminateSession: the second critical section (indexes deleted by value, session
+      removed) -/
+  | tresume (id : Nat)
   deriving Repr, DecidableEq
 
 structure Cfg where
@@ -108,6 +120,8 @@ def submgrAccepts : Op → Bool
 def storeAccepts : Op → Bool
   | .setKey _ _ _ => false
   | .load _ => false
+  | .tpark _ => false
+  | .tresume _ => false
   | _ => true
 
 /-- NAT bindings: both endpoints always present, no update, no listing -/
@@ -118,6 +132,8 @@ def natAccepts : Op → Bool
   | .setKey _ _ _ => false
   | .list => false
   | .load _ => false
+  | .tpark _ => false
+  | .tresume _ => false
   | _ => true
 
 def memAccepts : Op → Bool
@@ -127,6 +143,8 @@ def memAccepts : Op → Bool
   | .setKey _ _ _ => false
   | .byKey slot _ => slot
   | .load l => l.all fun e => e.2.k0 == none && e.2.k1 != none
+  | .tpark _ => false
+  | .tresume _ => false
   | _ => true
 
 /-- subscriber.Manager -/
@@ -160,6 +178,9 @@ structure State where
   i1 : AMap Nat Nat := []
   /-- the next generated id (1 + the largest id ever used) -/
   next : Nat := 1
+  /-- subscriber.Manager: the sessions whose TerminateSession is between its two critical sections (`terminating` set,
+      still in every map) -/
+  term : List Nat := []
   deriving Repr, DecidableEq
 
 def init : State := {}
@@ -175,6 +196,12 @@ inductive Obs where
   | notfound
   | none
   | dangling
+  /-- TerminateSession is parked between its two critical sections -/
+  | parked
+  /-- "session already terminating" -/
+  | busy
+  /-- `tresume` of a session that is not parked -/
+  | noref
   | found (id : Nat) (r : Rec)
   | ids (l : List Nat)
   | badop
@@ -205,7 +232,8 @@ def idxDrop (cond : Bool) (i : AMap Nat Nat) (k : Option Nat) (id : Nat) : AMap 
 
 /-- store record `e.2` under primary id `e.1` and point the indexes of its keys at it — no check of any kind -/
 def putRaw (st : State) (e : Nat × Rec) : State :=
-  { prim := AMap.insert st.prim e.1 e.2,
+  { st with
+    prim := AMap.insert st.prim e.1 e.2,
     i0 := idxPut st.i0 e.2.k0 e.1,
     i1 := idxPut st.i1 e.2.k1 e.1,
     next := if st.next ≤ e.1 then e.1 + 1 else st.next }
@@ -249,6 +277,17 @@ def delete (c : Cfg) (st : State) (id : Nat) : State × Obs :=
                i0 := idxDrop c.condDelete st.i0 r.k0 id,
                i1 := idxDrop c.condDelete st.i1 r.k1 id }, .ok)
 
+/-- first critical section of Manager.TerminateSession (+ the whole call when there is no address to release) -/
+def tpark (c : Cfg) (st : State) (id : Nat) : State × Obs :=
+  if id ∈ st.term then (st, .busy) else
+  match AMap.lookup st.prim id with
+  | none => (st, .notfound)
+  | some r => if r.k1 = none then delete c st id else ({ st with term := id :: st.term }, .parked)
+
+/-- second critical section of a parked TerminateSession: exactly what `delete` does, on the record as it is NOW -/
+def tresume (c : Cfg) (st : State) (id : Nat) : State × Obs :=
+  if id ∈ st.term then delete c { st with term := st.term.filter (· ≠ id) } id else (st, .noref)
+
 def get (st : State) (id : Nat) : Obs :=
   match AMap.lookup st.prim id with
   | some r => .found id r
@@ -275,7 +314,9 @@ def step (c : Cfg) (st : State) (op : Op) : State × Obs :=
   | .create id k0 k1 => create c st id k0 k1
   | .update id k0 k1 => update c st id k0 k1
   | .setKey id slot v => setKey st id slot v
-  | .delete id => delete c st id
+  | .delete id => if id ∈ st.term then (st, .busy) else delete c st id
+  | .tpark id => tpark c st id
+  | .tresume id => tresume c st id
   | .get id => (st, get st id)
   | .byKey slot v => (st, byKey c st slot v)
   | .list => (st, .ids (sortNats (AMap.keys st.prim)))
